@@ -48,7 +48,7 @@ static void lawCompare(Ctx& c, FCase& k, const std::string& keyHead, const std::
 
 static void checkC38(Ctx& c, long idx, Rng& r) {
     const int nE = (int)kLawElems.size();
-    int et = kLawElems[idx % nE];
+    int et = c.args.getInt("elem", -1) >= 0 ? (int)c.args.getInt("elem", -1) : kLawElems[idx % nE];   // --elem N: debugging aid
     int attachCls = (int)((idx / nE) % 4);
     int variant = (int)((idx / (4 * nE)) % 6);
     bool bystander = ((idx / nE) % 2) == 1;
@@ -131,7 +131,7 @@ static void checkC38(Ctx& c, long idx, Rng& r) {
 // C13: Newton's third law
 static void checkC13(Ctx& c, long idx, Rng& r) {
     const int nE = (int)kInteractionElems.size();
-    int et = kInteractionElems[idx % nE];
+    int et = c.args.getInt("elem", -1) >= 0 ? (int)c.args.getInt("elem", -1) : kInteractionElems[idx % nE];   // --elem N: debugging aid
     int attachCls = (int)((idx / nE) % 4);
     int variant = (int)((idx / (4 * nE)) % 6);
     FCase k;
@@ -158,7 +158,7 @@ static void checkC13(Ctx& c, long idx, Rng& r) {
     c.check("net-moment:" + e.name, netM.norm(), E1 * (sM + sF) + 1e-300, W("sum of moments about the Ground origin over all bodies incl. Ground != 0", netM));
     double mobMax = 0; for (int j = 0; j < k.nu; ++j) mobMax = std::max(mobMax, std::fabs(o.f[j]));
     c.check("no-mobility-force:" + e.name, mobMax, 0.0, W("interaction element applied a generalized force directly", netF));
-    if (e.b1 == e.b2 && e.b1 >= 0) {
+    if (e.b1 == e.b2 && e.b1 >= 0 && e.pureTwoBody()) {
         // same body twice: net zero on that body (and nothing anywhere else)
         double other = 0; for (int b = 0; b < k.nb; ++b) if (b != e.b1) other = std::max(other, spMax(o.F[b]));
         c.check("same-body:" + e.name, std::max(other, std::max(o.F[e.b1][1].norm(), 0.0)), E1 * sF + 1e-300, W("same body attached twice: net force not zero / other bodies loaded", o.F[e.b1][1]));
@@ -171,7 +171,7 @@ static void checkC13(Ctx& c, long idx, Rng& r) {
 
 // ------------------------------------------------------------------------------------
 // C12: power vs potential energy
-struct PowerOut { double P = 0, dPE = 0, dPEh = 0, scale = 0, peMag = 0, reported = NaN; bool ok = true; std::string why; };
+struct PowerOut { double P = 0, dPE = 0, dPEh = 0, scale = 0, peMag = 0, reported = NaN, h = 1e-3, fmax = 0; bool ok = true; std::string why; };
 
 // Power delivered and d(PE)/dt along q(t) = q + t*N*u for the speeds currently in s.
 static PowerOut powerAt(Ctx& c, FCase& k, State& s) {
@@ -182,7 +182,7 @@ static PowerOut powerAt(Ctx& c, FCase& k, State& s) {
     double vmax = 0;
     for (int b = 0; b < k.nb; ++b) {
         const SpatialVec& V = k.mob(b).getBodyVelocity(s);
-        po.P += ~o.F[b][0] * V[0] + ~o.F[b][1] * V[1];
+        po.P += ~o.F[b][0] * V[0] + ~o.F[b][1] * V[1]; po.fmax = std::max(po.fmax, spMax(o.F[b]));
         po.scale += o.F[b][0].norm() * V[0].norm() + o.F[b][1].norm() * V[1].norm();
         vmax = std::max(vmax, V[0].norm() + V[1].norm());
     }
@@ -196,16 +196,17 @@ static PowerOut powerAt(Ctx& c, FCase& k, State& s) {
     Vector q0 = s.getQ(), qdot; k.m.matter.multiplyByN(s, false, u, qdot);
     State w = s;
     auto pe = [&](double t) { w.updQ() = q0 + t * qdot; k.m.sys.realize(w, e.peStage); double v = e.potentialEnergy(k, w); po.peMag = std::max(po.peMag, std::fabs(v)); return v; };
-    double h = e.fdStep;
+    double h = e.fdStepFor(k, s); po.h = h;
     auto d5 = [&](double hh) { return (-pe(2 * hh) + 8 * pe(hh) - 8 * pe(-hh) + pe(-2 * hh)) / (12 * hh); };
     po.dPEh = d5(h); po.dPE = d5(h / 2);
+    if (std::isfinite(po.dPE)) po.scale += std::fabs(po.dPE);   // |dPE/dt| is one of the terms of the balance
     (void)c;
     return po;
 }
 
 static void checkC12(Ctx& c, long idx, Rng& r) {
     const int nE = (int)kEnergyElems.size();
-    int et = kEnergyElems[idx % nE];
+    int et = c.args.getInt("elem", -1) >= 0 ? (int)c.args.getInt("elem", -1) : kEnergyElems[idx % nE];   // --elem N: debugging aid
     int attachCls = (int)((idx / nE) % 4);
     int variant = (int)((idx / (4 * nE)) % 6);
     FCase k;
@@ -213,26 +214,40 @@ static void checkC12(Ctx& c, long idx, Rng& r) {
     Elem& e = *k.elem; State& s = k.s;
     const std::string en = e.name;
     Json wit = k.witness();
-    auto judge = [&](const PowerOut& po, const std::string& dirKey, int dirIx) -> bool {
+    auto judge = [&](const PowerOut& po, int dirIx) -> bool {
         auto W = [&](const char* what) { return [=]() { return Json(wit).set("what", what).set("P", po.P).set("dPEdt", po.dPE).set("dPEdt_h", po.dPEh).set("reportedDissipation", po.reported).set("direction", dirIx); }; };
         if (!po.ok) { c.viol("nonfinite:" + en, W(po.why.c_str())()); return false; }
-        double tol = E2 * po.scale + 200 * 2.2e-16 * po.peMag / e.fdStep + 1e-300;
+        double tol = E2 * po.scale + 200 * 2.2e-16 * po.peMag / po.h + 1e-300;
         if (e.reportsPE) {
             if (!std::isfinite(po.dPE) || !std::isfinite(po.dPEh)) { c.viol("nonfinite-pe:" + en, W("potential energy NaN/Inf on the stencil")()); return false; }
-            if (std::fabs(po.dPE - po.dPEh) > tol / 10) { c.skip("fd-h-vs-h/2-disagree:" + en); return false; }
+            if (std::fabs(po.dPE - po.dPEh) > tol / 10) {
+                if (c.args.verbose) fprintf(stderr, "fd-disagree %s %s: P=%.9g dPE(h/2)=%.12g dPE(h)=%.12g tol=%.3g peMag=%.6g\n", en.c_str(), e.regime.c_str(), po.P, po.dPE, po.dPEh, tol, po.peMag);
+                c.skip("fd-h-vs-h/2-disagree:" + en); return false; }
         }
         double D = po.P + po.dPE;     // = -dissipation
-        if (!e.damped) c.check("power" + dirKey + ":" + en + ":undamped", std::fabs(D), tol, W("P + dPE/dt != 0 for an element without damping"));
-        else c.check("power" + dirKey + ":" + en + ":dissipation-sign", D, tol, W("P + dPE/dt > 0: element creates energy"));
+        // One equality per element: P + dPE/dt = -(dissipation), dissipation = the element's own report where it
+        // has one, 0 for an element without damping. Elements with damping but no report: sign clause only.
+        // The witness says whether it was the power form (direction -1: the state's own speeds) or the gradient
+        // form (unit speed on one mobility).
+        const char* form = dirIx < 0 ? "power form" : "gradient form";
         if (std::isfinite(po.reported)) {
-            c.check("power" + dirKey + ":" + en + ":reported-dissipation", std::fabs(D + po.reported), tol, W("P + dPE/dt != -(reported power dissipation)"));
-            c.check("power" + dirKey + ":" + en + ":reported-dissipation-sign", -po.reported, tol, W("reported power dissipation negative"));
-        }
+            if (e.documentedYankOut && po.fmax == 0 && po.reported == 0) {
+                // documented exception (CompliantContactSubsystem::getDissipatedEnergy): a body "yanked" out of a
+                // contact gets no force and the elastic energy it leaves behind is not tracked
+                c.obs("yank-out:" + en);
+                c.check("sign:" + en, D, tol, W("force clamped to zero while the potential energy grows"));
+            } else
+                c.check("balance:" + en, std::fabs(D + po.reported), tol, W(dirIx < 0 ? "P + dPE/dt != -(reported power dissipation)" : "generalized force != -dPE/dq*N - reported dissipation"));
+            c.check("sign:" + en, -po.reported, tol, W("reported power dissipation negative"));
+            if (!e.damped) c.check("balance:" + en, std::fabs(po.reported), tol, W("element without damping reports a power dissipation"));
+        } else if (!e.damped) c.check("balance:" + en, std::fabs(D), tol, W(dirIx < 0 ? "P + dPE/dt != 0 for an element without damping" : "generalized force != -dPE/dq*N for an element without damping"));
+        else c.check("sign:" + en, D, tol, W("P + dPE/dt > 0: element creates energy"));
+        (void)form;
         return true;
     };
     c.setPhase(en + " power");
     PowerOut po = powerAt(c, k, s);
-    bool ok = judge(po, "", -1);
+    bool ok = judge(po, -1);
     if (ok) c.cover(en + "/" + e.attach + "/" + e.regime + "/power");
     // gradient form: generalized force = -dPE/dq * N, one mobility at a time (unit speeds);
     // undamped elements only (their force does not depend on u)
@@ -244,7 +259,7 @@ static void checkC12(Ctx& c, long idx, Rng& r) {
         for (int t = 0; t < nd; ++t) {
             State s2 = s; Vector u(k.nu, 0.0); u[order[t]] = 1.0; s2.updU() = u;
             PowerOut pg = powerAt(c, k, s2);
-            if (judge(pg, "-gradient", order[t])) ++done;
+            if (judge(pg, order[t])) ++done;
         }
         if (done) c.cover(en + "/" + e.attach + "/" + e.regime + "/gradient");
     }
